@@ -175,7 +175,7 @@ theorem fill_cases (basis : Array W) (p : Pos) (wf : WFBoard p) (hh : HeightsOK 
       (slideMap p.c p (own p col &&& ~~~(p.standing ||| p.caps)) used).getLsbD s = true) :
     s < p.cfg.size * p.cfg.size ∧ p.standing.getLsbD s = false ∧
     (((own p col).getLsbD s = true ∧ used.getLsbD s = false) ∨
-     ∃ m q j, p.apply basis m = .ok q ∧ After p q j s (own p col) (own q col) (own p col.flip) (own q col.flip) ∧
+     ∃ m q j, m.type ≠ Facts.mtPass ∧ p.apply basis m = .ok q ∧ After p q j s (own p col) (own q col) (own p col.flip) (own q col.flip) ∧
        (64 ≤ j ∨ (j < p.cfg.size * p.cfg.size ∧ used.getLsbD j = false))) := by
   have hn := wf.size_ok
   rcases hfill with h | h
@@ -191,8 +191,8 @@ theorem fill_cases (basis : Array W) (p : Pos) (wf : WFBoard p) (hh : HeightsOK 
       | true =>
         have := wf.kinds_sub s (by rw [BitVec.getLsbD_or, hx]; rfl)
         rw [hemp] at this; cases this
-    obtain ⟨m, q, h1, h2⟩ := place_generic basis p wf hply col hcol s hs hemp hres
-    exact ⟨hs, hst, Or.inr ⟨m, q, 64, h1, h2, Or.inl (Nat.le_refl _)⟩⟩
+    obtain ⟨m, q, h0, h1, h2⟩ := place_generic basis p wf hply col hcol s hs hemp hres
+    exact ⟨hs, hst, Or.inr ⟨m, q, 64, h0, h1, h2, Or.inl (Nat.le_refl _)⟩⟩
   · -- slide map
     unfold slideMap at h
     rw [wf.consts] at h
@@ -217,7 +217,7 @@ theorem fill_cases (basis : Array W) (p : Pos) (wf : WFBoard p) (hh : HeightsOK 
     · simp only [BitVec.getLsbD_and, BitVec.getLsbD_not, BitVec.getLsbD_or, Bool.and_eq_true, Bool.not_eq_true',
         decide_eq_true_eq, Bool.or_eq_false_iff] at h
       obtain ⟨⟨hown, _, hjs, hjc⟩, _, hju⟩ := h
-      obtain ⟨m, q, h1, h2⟩ := slide_generic basis p wf hh hply col hcol j s hs hj hown hjs hjc hss hsc
-      exact Or.inr ⟨m, q, j, h1, h2, Or.inr ⟨neighbours_lt hs hj, hju⟩⟩
+      obtain ⟨m, q, h0, h1, h2⟩ := slide_generic basis p wf hh hply col hcol j s hs hj hown hjs hjc hss hsc
+      exact Or.inr ⟨m, q, j, h0, h1, h2, Or.inr ⟨neighbours_lt hs hj, hju⟩⟩
 
 end C19
